@@ -12,6 +12,12 @@ implementation only (harness), see DESIGN §7.
 namespace U.Props.C01
 open U U.Date U.GoTime
 
+/-- generated facts the hand-written formatter/parser model relies on: the two `fmt` format strings,
+the flag and rule bits, the default input limit -/
+theorem source_facts :
+    Gen.date_formatExtended = "%04d-%02d-%02d" ∧ Gen.date_formatBasic = "%04d%02d%02d" ∧
+    Gen.date_FormatBasic = 1 ∧ Gen.date_RuleDisableBasic = 1 ∧ Gen.date_MaxInputLength = 10 := by decide
+
 /-- the two digits of a number below 100, as `%02d` prints them -/
 theorem padDec2 (n : Nat) (h : n < 100) : padDec 2 n = [48 + n / 10, 48 + n % 10] := by
   rw [padDec_small 2 n (by decide) (by simpa using h), fixed2]
